@@ -115,16 +115,22 @@ def gen_use(rng, m, exp, own, fixed, hist):
         picks = rng.sample(allnames, min(len(allnames), rng.choice([1, 1, 2])))
         return {"mod": m, "only": False, "items": [[local_name(rng, k, n, own), n] for k, n in picks], "nature": None}
     picks = rng.sample(allnames, min(len(allnames), rng.choice([1, 2, 2, 3, 4])))
+    # namesakes of the scope's own entities are wanted in the list (they must be renamed)
+    picks += [x for x in allnames if x[1] in own and x not in picks and rng.random() < 0.6]
     items = []
     for k, n in picks:
-        items.append([local_name(rng, k, n, own), n] if rng.random() < 0.55 else [n, n])
+        items.append([local_name(rng, k, n, own), n] if n in own or rng.random() < 0.55 else [n, n])
     return {"mod": m, "only": True, "items": items, "nature": None}
 
 
 def local_name(rng, k, n, own):
+    """local name for the remote entity `n`.  When the using scope owns an entity called `n` itself (legal: the
+    import is renamed, so the two never meet under one identifier) the local name avoids the scope's own names."""
     r = rng.random()
     if r < 0.7:
-        return rng.choice(POOL[k])  # may equal n (a rename to itself), may be another entity's name
+        cands = [x for x in POOL[k] if x not in own] if n in own else POOL[k]
+        if cands:
+            return rng.choice(cands)  # may equal n (a rename to itself), may be another entity's name
     return f"{LETTER[k]}_l{rng.randrange(3)}"
 
 
@@ -221,6 +227,12 @@ def run_pair(c06, impl, d: Path, g, order_seed):
             for lst in LISTS:
                 for e in getattr(m, lst):
                     urls[str(e.get_url())] = f"{m.name.lower()}.{e.name.lower()}"
+            # the specifics of generic interfaces (`<g>_impl`; FORD lists them in all_procs / pub_procs of the
+            # module when it classifies the interface as generic; `strip_impl` drops them on both sides)
+            for itf in m.interfaces:
+                for r in list(getattr(itf, "routines", None) or []) + ([itf.procedure] if getattr(itf, "procedure", None) is not None else []):
+                    if hasattr(r, "get_url"):
+                        urls.setdefault(str(r.get_url()), f"{m.name.lower()}.{r.name.lower()}")
         obs_a = observe(impl, pa, None, None)
         pb = build(d / "b_src", g["files_b"], external={"a": str(d / "a_doc")})
         order_b = list(order)
